@@ -421,6 +421,8 @@ fn run_family(seed: u64, f: u64, q_per_fam: usize) -> FamOut {
     if f % 17 == 3 {
         // integers next to 2^53 and 2^31, against float-spelled and integer-spelled literals
         docs.push(json!({"a": [9007199254740993i64, 9007199254740992i64, 9007199254740991i64, -9007199254740993i64, 2147483648i64, 2147483647, 9007199254740992.0, 1e300, 0, -0.0], "n": 9007199254740993i64, "m": 9007199254740992.0}));
+        // and integers that only u64 holds
+        docs.push(json!({"a": [18446744073709551615u64, 9223372036854775808u64, 9223372036854775807i64, 1, 1.5, -1], "n": 18446744073709551615u64, "m": 9223372036854775808u64}));
     }
     if f % 11 == 4 {
         // lists of 70-120 numbers in which an integer and the float of the same value, and 2^53 and
@@ -462,12 +464,15 @@ fn run_family(seed: u64, f: u64, q_per_fam: usize) -> FamOut {
                 queries.push(format!("$.a[?@ {} {}]", op, lit));
             }
         }
+        for q in ["$.a[?@ > 1]", "$.a[?@ >= $.m]", "$.a[?@ == $.n]", "$.a[?@ < $.n]", "$.a[?@ != $.m]", "$.a[?@ > 1.5]", "$[?@ > 1e19]", "$.a[?@ <= 1e19]"] {
+            queries.push(q.to_string());
+        }
         queries.push("$[?@ == $.n]".to_string());
         queries.push("$.a[?@ == $.m]".to_string());
         queries.push("$.a[?@ < $.n]".to_string());
     }
     if f % 11 == 4 {
-        for q in ["$.sets[?any_of(@, $.big)]", "$.sets[?none_of(@, $.big)]", "$.sets[?subset_of(@, $.big)]", "$[?in(@, $.big)]", "$.ints[?in(@, $.big)]", "$.ints[?nin(@, $.big)]", "$[?subset_of($.ints, $.big)]", "$.sets[?any_of($.big, @)]"] {
+        for q in ["$.sets[?in(1, @)]", "$.sets[?in(14, @)]", "$.sets[?nin(7, @)]", "$[?in(1, $.ints)]", "$[?in(@, $.ints)]", "$.sets[?in(1.5, @)]", "$.sets[?in('x', @)]", "$.sets[?any_of(@, $.big)]", "$.sets[?none_of(@, $.big)]", "$.sets[?subset_of(@, $.big)]", "$[?in(@, $.big)]", "$.ints[?in(@, $.big)]", "$.ints[?nin(@, $.big)]", "$[?subset_of($.ints, $.big)]", "$.sets[?any_of($.big, @)]"] {
             queries.push(q.to_string());
         }
     }
